@@ -66,6 +66,11 @@ def gen_cases(ck):
 
 
 PRIOR = b'PRIOR CONTENT 0123456789'
+PRIOR_LONG = PRIOR * 4000
+
+
+def prior_of(kind):
+    return PRIOR_LONG if kind == 'bytesio-long-at-0' else PRIOR
 
 
 def node_state(p):
@@ -132,6 +137,9 @@ def run_stream(md, kind, validate):
     if kind == 'bytesio':
         s = io.BytesIO(PRIOR)
         s.seek(3)
+    elif kind == 'bytesio-long-at-0':
+        # prior content longer than any dump, stream position still at the beginning
+        s = io.BytesIO(PRIOR_LONG)
     elif kind == 'nonseekable':
         s = NonSeekable(PRIOR)
     elif kind == 'nonseekable-fail':
@@ -183,17 +191,17 @@ def run(ck, model_ok):
             for key, what in oracle_write(target, ow, res, after, dumped, before):
                 ck.fail('oracle', key, case, 'no trace / exact dump', repr((res, after))[:300], what)
             sres = {}
-            for kind in ('bytesio', 'nonseekable', 'nonseekable-fail', 'seekable-fail'):
+            for kind in ('bytesio', 'bytesio-long-at-0', 'nonseekable', 'nonseekable-fail', 'seekable-fail'):
                 r, content = run_stream(md, kind, v)
                 sres[kind] = (r, content)
                 ck.count('stream:' + kind + (':ok' if r[0] == 'ok' else ':' + r[1][0]))
                 scase = dict(case, stream=kind)
                 if r[0] == 'ok':
-                    want = dumped[1] if kind == 'bytesio' else PRIOR + dumped[1] if dumped[0] == 'ok' else None
+                    want = dumped[1] if kind.startswith('bytesio') else PRIOR + dumped[1] if dumped[0] == 'ok' else None
                     if dumped[0] != 'ok' or content != want:
                         ck.fail('oracle', 'stream-success-wrong-content', scase, 'dump()', repr(content)[:200], 'write_stream succeeded with unexpected stream content')
                 else:
-                    if dumped[0] != 'ok' and content != PRIOR:
+                    if dumped[0] != 'ok' and content != prior_of(kind):
                         ck.fail('oracle', 'stream-modified-without-content', scase, repr(PRIOR), repr(content)[:200],
                                 'write_stream modified the stream although no complete content was produced')
             if model_ok and ml.modelable(md):
@@ -219,13 +227,15 @@ def run(ck, model_ok):
                     unm = mres == ('err', ('IOther',))
                     if not unm and (mres != (res[0], res[1][:1] if res[0] == 'err' else None) or mafter != after):
                         ck.fail('tie', 'write', case, repr((mres, mafter))[:300], repr((res, after))[:300], 'model and implementation disagree')
-                for kind, idx in (('bytesio', ids[1]), ('nonseekable', ids[2]), ('nonseekable-fail', ids[3])):
+                for kind, idx in (('bytesio', ids[1]), ('bytesio-long-at-0', ids[1]), ('nonseekable', ids[2]), ('nonseekable-fail', ids[3])):
                     ms = out[idx]
                     msres = sl.model_res(ms[0], lambda v: None)
                     mcontent = atom_bytes(ms[1])
                     r, content = sres[kind]
                     if msres == ('err', ('IOther',)):
                         continue
+                    if kind == 'bytesio-long-at-0' and mcontent == PRIOR:
+                        mcontent = PRIOR_LONG     # the model ran with the short prior content; untouched means untouched
                     if msres != (r[0], r[1][:1] if r[0] == 'err' else None) or mcontent != content:
                         ck.fail('tie', 'write_stream:' + kind, case, repr((msres, mcontent))[:300], repr((r, content))[:300], 'model and implementation disagree')
     ck.notes += ['the sandbox runs as root: "unwritable target" is a path below a regular file (ENOTDIR), not a permission failure']
@@ -239,6 +249,8 @@ def replay(rp):
         v = list(oracle_write(c['target'], c['overwrite'], res, after, dumped, before))
         if 'stream' in c:
             r, content = run_stream(md, c['stream'], c['validate'])
-            if r[0] == 'err' and dumped[0] != 'ok' and content != PRIOR:
+            if r[0] == 'err' and dumped[0] != 'ok' and content != prior_of(c['stream']):
                 v.append(('stream-modified-without-content', repr(content)[:100]))
+            if r[0] == 'ok' and c['stream'].startswith('bytesio') and (dumped[0] != 'ok' or content != dumped[1]):
+                v.append(('stream-success-wrong-content', repr(content)[:100]))
     return not v, v or 'no trace left'
